@@ -37,7 +37,7 @@ TRUSTED = [
     "SQLite's own behaviour (PRAGMA table_info / index_list / foreign_key_list, sqlite_master.sql verbatim storage): input of the model, "
     "exercised live by the oracle on every run",
     "str.isalnum() / Unicode database for \\w above ASCII: a parameter of the matchers (the theorems hold for any)",
-    "the identifier preparer table of SQLite is regenerated with the C06 extractor (specs/c06.py extract_tables)",
+    "the identifier preparer table of SQLite (reserved words, legal characters, quote characters) is measured on the live dialect on every run",
 ]
 ASSUMPTIONS = [
     "SQLite only: PostgreSQL/MySQL reflection depends on server catalogs nothing here can produce - not claimed",
@@ -102,11 +102,17 @@ def _patterns(repo=None):
                 out[node.targets[0].id] = ast.literal_eval(node.value)
             if node.targets[0].id == "partial_pred_re" and isinstance(node.value, ast.Call):
                 out["PARTIAL"] = ast.literal_eval(node.value.args[0])
+                flags = 0
+                for a in node.value.args[1:]:
+                    for n in ast.walk(a):
+                        if isinstance(n, ast.Attribute) and isinstance(n.value, ast.Name) and n.value.id == "re":
+                            flags |= int(getattr(re, n.attr))
+                out["PARTIAL_FLAGS"] = flags
         if isinstance(node, ast.FunctionDef) and node.name == "_find_cols_in_sig":
             for c in ast.walk(node):
                 if isinstance(c, ast.Call) and getattr(c.func, "attr", "") == "finditer":
                     out["COLS"] = ast.literal_eval(c.args[0])
-    if set(out) != {"UNIQUE_PATTERN", "INLINE_UNIQUE_PATTERN", "COLS", "PARTIAL"}:
+    if set(out) != {"UNIQUE_PATTERN", "INLINE_UNIQUE_PATTERN", "COLS", "PARTIAL", "PARTIAL_FLAGS"}:
         raise RuntimeError("cannot find the reflection patterns in the source: %s" % sorted(out))
     return out
 
@@ -210,8 +216,27 @@ def facts(_=None):
                 irregular.append([c.__name__, n, txt])
                 continue
             render.append([ci, n, m.group(1), k])
+    # the identifier preparer, measured on the live object (code points below U+3000)
+    prep = d.identifier_preparer
+    legal, start = [], None
+    for cp in range(0, 0x3001):
+        ok = cp < 0x3000 and bool(prep.legal_characters.match(chr(cp)))
+        if ok and start is None:
+            start = cp
+        if not ok and start is not None:
+            legal.append([start, cp - 1])
+            start = None
+    lower = []
+    for a, b in legal:
+        for cp in range(a, b + 1):
+            lo = chr(cp).lower()
+            if lo != chr(cp):
+                lower.append([cp, [ord(x) for x in lo]])
+    ptab = {"reserved": sorted(prep.reserved_words), "legal": legal, "illegal_initial": sorted(ord(c) for c in prep.illegal_initial_characters),
+            "lower": lower, "iq": ord(prep.initial_quote), "fq": ord(prep.final_quote), "esc": ord(prep.escape_quote),
+            "unesc": ord(prep.escape_quote), "esc_pct": bool(prep._double_percents)}
     return {"classes": [c.__name__ for c in classes], "ischema": isch, "fallbacks": fall, "accepts": accepts,
-            "render": render, "irregular": irregular}
+            "render": render, "irregular": irregular, "prep": ptab}
 
 
 def _cs(s):
@@ -222,11 +247,10 @@ _TABS = {}
 
 
 def translate(repo, outdir):
-    from specs import c06
     from vlib import implcall
 
-    t = c06.extract_tables(repo)["sqlite"]
     f = implcall.call("specs.c15", "facts")
+    t = f["prep"]
     _TABS["facts"] = f
     _patterns(repo)
     rule, qualified = source_rules(repo)
@@ -460,7 +484,7 @@ def _rx():
         p = _patterns()
         _RX["uq"] = re.compile(p["UNIQUE_PATTERN"], re.I)
         _RX["inline"] = re.compile(p["INLINE_UNIQUE_PATTERN"], re.I)
-        _RX["partial"] = re.compile(p["PARTIAL"], re.I)
+        _RX["partial"] = re.compile(p["PARTIAL"], p["PARTIAL_FLAGS"])
     return _RX
 
 
@@ -470,6 +494,11 @@ def _dialect():
     if "d" not in _RX:
         _RX["d"] = sqlite.dialect()
     return _RX["d"]
+
+
+def _cname(d, q, u):
+    f = getattr(d, "_constraint_name", None)
+    return f(q, u) if f is not None else (q or u)
 
 
 def _enc_uqs(l):
@@ -493,7 +522,7 @@ def impl(c):
         out = []
         for m in _rx()["uq"].finditer(text):
             q, u, cols = m.group(1, 2, 3)
-            out.append((q or u, list(d._find_cols_in_sig(cols))))
+            out.append((_cname(d, q, u), list(d._find_cols_in_sig(cols))))
         return _enc_uqs(out)
     if t[0] == 1:
         auto = [[unS(x) for x in a] for a in t[1]]
@@ -541,7 +570,7 @@ def impl(c):
         parsed = []
         for m in _rx()["uq"].finditer(text):
             q, u, cols = m.group(1, 2, 3)
-            parsed.append((q or u, list(d._find_cols_in_sig(cols))))
+            parsed.append((_cname(d, q, u), list(d._find_cols_in_sig(cols))))
         allnames = sorted(set([n for n, _ in cons if n is not None] + names))
         return [0, [S(x) for x in segs], S(text), _enc_uqs(parsed), [[S(n), int(d.identifier_preparer.quote(n) == n)] for n in allnames]]
     if t[0] == 3:
@@ -832,13 +861,12 @@ def _bad_chars(n, bare):
 
 
 def _defect_name(n, bare):
+    # (names containing '"' and bare names containing '$' are read back correctly since /repo ae21374, 24f65cc)
     if n is None:
         return None
     if "\n" in n:
         return None
-    if bare.get(n) and "$" in n:
-        return None
-    return n.replace('"', '""')
+    return n
 
 
 ID_DQ = "C15-constraint-name-dquote-doubled"
@@ -853,10 +881,6 @@ def _name_rule(n, bare):
         return None
     if "\n" in n:
         return ID_NL
-    if bare.get(n) and "$" in n:
-        return ID_DOLLAR
-    if '"' in n:
-        return ID_DQ
     return None
 
 
@@ -949,10 +973,7 @@ def _table_oracle(c, obs):
             return "ASPECT=%s known=%s :: created %s reflected %s" % (asp, k, json.dumps(ideal[asp]), json.dumps(got[asp]))
     want_ix = [x[:3] + [_ws(x[3])] for x in o["created"]["ix"]]
     if r1["ix"] != want_ix:
-        # (.+) of partial_pred_re stops at a newline inside the predicate (a column name containing one)
-        cut = [x[:3] + [None if x[3] is None else _ws(x[3].split("\n")[0])] for x in o["created"]["ix"]]
-        k = "C15-partial-index-predicate-newline" if r1["ix"] == cut else "-"
-        return "ASPECT=indexes known=%s :: created %s reflected %s" % (k, json.dumps(want_ix), json.dumps(r1["ix"]))
+        return "ASPECT=indexes known=- :: created %s reflected %s" % (json.dumps(want_ix), json.dumps(r1["ix"]))
     if o["err"]:
         k = "-"
         if o["err"][1] in ("ArgumentError", "NoReferencedTableError", "NoReferencedColumnError", "InvalidRequestError") and tbl["fk"] and any(
@@ -963,9 +984,6 @@ def _table_oracle(c, obs):
     if o["r2"] != r1:
         diff = [k for k in r1 if r1[k] != o["r2"][k]]
         k = "-"
-        names = [u[0] for u in r1["uq"]] + [f[0] for f in r1["fk"]] + [r1["pk"][1]]
-        if set(diff) <= {"uq", "fk", "pk"} and any(n and '"' in n for n in names):
-            k = ID_DQ
         return "ASPECT=fixpoint:%s known=%s :: first reflection %s, reflection of the re-created table %s" % (
             ",".join(diff), k, json.dumps({x: r1[x] for x in diff}), json.dumps({x: o["r2"][x] for x in diff}))
     if o.get("probe"):
@@ -984,7 +1002,7 @@ def oracle(c, obs):
         parsed = [[None if n == [] else unS(n[0]), [unS(x) for x in cols]] for n, cols in obs[3]]
         if created != parsed:
             bare = {unS(n): bool(b) for n, b in obs[4]}
-            good = [cn for cn in created if not ((cn[0] is not None and _bad_chars(cn[0], bare.get(cn[0])))
+            good = [cn for cn in created if not ((cn[0] is not None and "\n" in cn[0])
                                                  or any(_bad_chars(x, bare.get(x)) or ")" in x for x in cn[1]))]
             it = iter(parsed)
             unharmed = all(any(g == q for q in it) for g in good)
